@@ -286,11 +286,10 @@ func registerNative3(ex *Exec) {
 		di := args[2].(Iface)
 		md := ex.mapData(st, di.V.(MapRef))
 		for i := range md.Keys {
-			k, ok1 := md.Keys[i].(Str).Concrete()
-			v, ok2 := md.Vals[i].(Str).Concrete()
-			if !ok1 || !ok2 {
-				ex.unsupported(st, "template.Execute(symbolic data)")
-			}
+			// template data must be concrete: values the path already pins are read off, others are
+			// split over their feasible values (solver-driven)
+			k := ex.concreteStr(st, md.Keys[i].(Str), 64)
+			v := ex.concreteStr(st, md.Vals[i].(Str), 64)
 			data[k] = v
 		}
 		var sb strings.Builder
